@@ -672,7 +672,7 @@ void caseStructured(vrt::Case& c)
   Spec sp;
   sp.A = Dense(n, n);
   Dense& A = sp.A;
-  int f = static_cast<int>((c.index / 12) % 12);
+  int f = static_cast<int>((c.index / 12) % 13);
   LD s = scalePick(c.rng);
   switch (f)
   {
@@ -798,6 +798,21 @@ void caseStructured(vrt::Case& c)
     sp.gen = "zero-one";
     for (size_t i = 0; i < n; ++i) for (size_t j = 0; j < n; ++j) A(i, j) = (i != j || c.rng.chance(0.3)) && c.rng.chance(0.45) ? 1.0 : 0.0;
     break;
+  case 11: // nearly defective: triangular with diagonal entries 1e-6 .. 1e-12 apart (huge eigenvector components, overflow control of the back substitution)
+  {
+    sp.gen = "near-defective";
+    LD base = static_cast<LD>(c.rng.range(-2, 2));
+    LD sep = powl(10.0L, static_cast<LD>(c.rng.real(-12, -6)));
+    bool up = c.rng.chance(0.5);
+    for (size_t i = 0; i < n; ++i)
+      for (size_t j = i; j < n; ++j)
+      {
+        double v = i == j ? static_cast<double>(base + (c.rng.chance(0.6) ? static_cast<LD>(i) * sep : static_cast<LD>(c.rng.range(0, 2)))) : (c.rng.chance(0.7) ? 1.0 : static_cast<double>(c.rng.real(-1, 1)));
+        if (up) A(i, j) = v; else A(j, i) = v;
+      }
+    if (c.rng.chance(0.3)) { LMat Q = randomOrthogonal(c.rng, n); A = roundL(mul(mul(Q, toL(A)), transposeL(Q))); sp.gen += "-rotated"; }
+    break;
+  }
   default: // upper Hessenberg with some exactly zero subdiagonal entries (deflation from the start)
     sp.gen = "hessenberg";
     for (size_t i = 0; i < n; ++i) for (size_t j = 0; j < n; ++j)
@@ -1090,7 +1105,7 @@ void caseDuality(vrt::Case& c)
 void caseFixed(vrt::Case& c)
 {
   Spec sp;
-  switch (c.index % 8)
+  switch (c.index % 12)
   {
   case 0: // JAMA's regression matrix for the hqr2 non-termination (JAMA 1.0.3)
   {
@@ -1106,6 +1121,14 @@ void caseFixed(vrt::Case& c)
   case 4: sp.gen = "fixed-jordan2"; sp.A = Dense(2, 2); sp.A(0, 0) = 1; sp.A(0, 1) = 1; sp.A(1, 1) = 1; break;
   case 5: sp.gen = "fixed-test-eigen"; sp.A = Dense(2, 2); sp.A(0, 0) = 2.3; sp.A(0, 1) = 1.4; sp.A(1, 0) = 5.0; sp.A(1, 1) = -0.9; break;
   case 6: sp.gen = "fixed-zero-nonsym"; sp.A = Dense(3, 3); sp.A(0, 2) = 1; break;
+  case 7: // exactly double, defective eigenvalue 1: discriminant of the trailing 2x2 block is exactly zero
+    sp.gen = "fixed-double-root"; sp.A = Dense(2, 2); sp.A(0, 0) = 2; sp.A(0, 1) = 1; sp.A(1, 0) = -1; sp.A(1, 1) = 0; break;
+  case 8: // the same block below a real eigenvalue
+    sp.gen = "fixed-double-root-3x3"; sp.A = Dense(3, 3); sp.A(0, 0) = 3; sp.A(0, 1) = 1; sp.A(0, 2) = -2; sp.A(1, 1) = 2; sp.A(1, 2) = 1; sp.A(2, 1) = -1; sp.A(2, 0) = 0.5; break;
+  case 9: // signed cyclic shift: eigenvalues are the 5th roots of -1
+    sp.gen = "fixed-cyclic5-signed"; sp.A = Dense(5, 5); sp.A(0, 1) = 1; sp.A(1, 2) = 1; sp.A(2, 3) = 1; sp.A(3, 4) = 1; sp.A(4, 0) = -1; break;
+  case 10: // complex pair above a real eigenvalue, integer entries
+    sp.gen = "fixed-pair-and-real"; sp.A = Dense(3, 3); sp.A(0, 0) = 1; sp.A(0, 1) = -2; sp.A(1, 0) = 2; sp.A(1, 1) = 1; sp.A(0, 2) = 3; sp.A(1, 2) = -1; sp.A(2, 2) = 4; sp.A(2, 0) = 1; break;
   default: sp.gen = "fixed-1x1"; sp.A = Dense(1, 1); sp.A(0, 0) = -3.5; break;
   }
   vrt::describe(sp.gen, "A=" + dump(sp.A));
@@ -1116,22 +1139,22 @@ void caseFixed(vrt::Case& c)
 int main(int argc, char** argv)
 {
   vector<vrt::Group> groups = {
-    { "fixed", 8, 8, caseFixed, 300, true },
-    { "dense", 3600, 240000, caseDense, 300, false },
-    { "symmetric", 3840, 240000, caseSymmetric, 300, false },
-    { "structured", 5760, 360000, caseStructured, 300, false },
-    { "spectrum", 2400, 120000, caseSpectrum, 300, false },
-    { "functions", 3600, 180000, caseFunctions, 300, false },
-    { "duality", 2000, 100000, caseDuality, 300, false },
+    { "fixed", 12, 12, caseFixed, 300, true },
+    { "dense", 7200, 240000, caseDense, 300, false },
+    { "symmetric", 7680, 240000, caseSymmetric, 300, false },
+    { "structured", 12480, 374400, caseStructured, 300, false },
+    { "spectrum", 4800, 120000, caseSpectrum, 300, false },
+    { "functions", 7200, 180000, caseFunctions, 300, false },
+    { "duality", 4000, 100000, caseDuality, 300, false },
   };
   vrt::Meta meta;
   meta.rule = "One case = one real square matrix, n = 1 + index mod 12, flavour = (index div 12) mod #flavours of its group: dense (uniform, gaussian, integers in [-9,9], sparse integers, "
       "positive, rate matrices; scales 1e-6..1e6), symmetric (uniform, integer, prescribed / repeated spectrum, diagonal, zero / identity / scalar, tridiagonal, graded 1e-6..1e6, Gram), "
       "structured (upper / lower triangular incl. repeated diagonal, companion matrices of polynomials with prescribed real roots or complex pairs, rotation blocks plain / permuted / "
-      "orthogonally rotated incl. pure 90-degree rotations, Jordan blocks plain / rotated, signed permutation matrices, nilpotent, graded non-symmetric, 0/1 matrices, Hessenberg with zero "
+      "orthogonally rotated incl. pure 90-degree rotations, Jordan blocks plain / rotated, nearly defective triangular (diagonal entries 1e-12..1e-6 apart), signed permutation matrices, nilpotent, graded non-symmetric, 0/1 matrices, Hessenberg with zero "
       "subdiagonal entries), spectrum (S.B.S^-1 with kappa(S)=1..100 and a simple spectrum with mutual distances >= 0.4/n, real or with complex pairs), functions (exp, pow(A,p) for p in "
       "{0,1,2,3,5,-1,-2,0.5,1/3,1.5,2.5,-0.5} on S.diag(lambda).S^-1 with kappa(S)<=10, symmetric, diagonal, identity, zero matrices, |lambda|<=2), duality (DualityDiagram on r x q data, "
-      "r,q in 1..8, positive weights), fixed (eight stored matrices). Every matrix is passed as RowMatrix / ColMatrix / LinearMatrix (random). A class key = (flavour, n, symmetric or not, "
+      "r,q in 1..8, positive weights), fixed (twelve stored matrices). Every matrix is passed as RowMatrix / ColMatrix / LinearMatrix (random). A class key = (flavour, n, symmetric or not, "
       "number of complex pairs returned, storage class): each involves a full decomposition.";
   meta.assumptions = {
     "tolerances: block-column residual |A.v - v.B|_F <= C n eps |A|_F |v|_F with C = 1e4 (non-symmetric) / 1e3 (symmetric); trace within C n eps |A|_F; determinant within 2(prod(|a_i|+C n eps|A|_F) - prod|a_i|); "
